@@ -112,6 +112,7 @@ def run_cases(exe, cases, par=None):
                 outn = os.path.join(wd, "x" if c.kind == "expand" else "x.bz2")
                 t.run.out = open(outn, "rb").read() if os.path.exists(outn) else b""
                 t.outfile_exists = os.path.exists(outn)
+                t.input_exists = os.path.exists(os.path.join(wd, name))
             shutil.rmtree(wd, ignore_errors=True)
         elif c.mode == "pipe":
             t = campaign.traced_run(exe, c.args, c.label, stdin=c.data, env=env, timeout=c.timeout, kind=c.kind)
